@@ -40,7 +40,9 @@ def run(cfg, stim, backend="fast", max_sys=None):
     masters = []
     for i, (p, pc, ops) in enumerate(zip(dut.ports, cfg["ports"], stim["ports"])):
         conv_up = p.data_width < W
-        m = NativeMaster(p, ops, name="p%d" % i, flush_at_end=conv_up, use_last=conv_up, wait_reads=stim.get("wait_reads", [False] * len(dut.ports))[i])
+        pure_cdc = pc.get("clock_domain", "sys") != "sys" and p.data_width == W
+        m = NativeMaster(p, ops, name="p%d" % i, flush_at_end=conv_up, use_last=conv_up, wait_reads=stim.get("wait_reads", [False] * len(dut.ports))[i],
+                         rready_pattern=(stim.get("rready") or [None] * len(dut.ports))[i] if pure_cdc else None)
         m.domain = pc.get("clock_domain", "sys")
         masters.append(m)
     dram = cc.make_dram(cfg, dut)
@@ -63,10 +65,16 @@ def run(cfg, stim, backend="fast", max_sys=None):
     inner = [(i, dut.crossbar.masters[i]) for i, pc in enumerate(cfg["ports"]) if pc.get("clock_domain", "sys") != "sys"]
     lost_r = []
 
+    strobes = {}
+
     def probe_inner():
         for i, ip in inner:
-            if sim.get(ip.rdata.valid) and not sim.get(ip.rdata.ready):
-                lost_r.append((cnt.get("sys", 0), i))
+            if sim.get(ip.rdata.valid):
+                if not sim.get(ip.rdata.ready):
+                    # words strobed into the crossing so far and not yet delivered on the user side
+                    lost_r.append((cnt.get("sys", 0), i, strobes.get(i, 0) - len(masters[i].r_log)))
+                else:
+                    strobes[i] = strobes.get(i, 0) + 1
     quiet = 0
     done = False
     while cnt.get("sys", 0) < cap:
@@ -95,9 +103,11 @@ def run(cfg, stim, backend="fast", max_sys=None):
 
 def oracle(run, P):
     if run.lost_r:
-        t, i = run.lost_r[0]
-        # the crossbar strobes rdata.valid for one cycle; the CDC's read-data FIFO was full: everything behind it is derivative
-        return [dict(clause=P + ".lost_beat", key="rdata_fifo_full", what="whole core: crossbar read strobe for CDC port %d at sys cycle %d found the CDC read-data FIFO not ready (%d strobes lost in this case)" % (i, t, len(run.lost_r)))]
+        t, i, inside = run.lost_r[0]
+        # the crossbar strobes rdata.valid for one cycle; the CDC's read-data FIFO was full: everything behind it is derivative.
+        # get_port() builds the crossing with its default read-data depth of 16: the listed finding is an overrun of THAT FIFO
+        key = "rdata_fifo_full" if inside >= 16 - 3 else "rdata_lost_with_%d_words_inside" % inside
+        return [dict(clause=P + ".lost_beat", key=key, what="whole core: crossbar read strobe for CDC port %d at sys cycle %d found the CDC read-data FIFO not ready with %d words inside (%d strobes lost in this case)" % (i, t, inside, len(run.lost_r)))]
     cfg = run.cfg
     W = cc.word_width(cfg)
     am = cc.addrmap_of(cfg)
@@ -230,4 +240,6 @@ def core_stim(draw, cfg, max_ops=20):
             ops.append(op)
         ports.append(ops)
         waits.append(wait)
-    return dict(ports=ports, wait_reads=waits)
+    # read-data back-pressure from the user (applied to ports that are a plain clock-domain crossing: their read data is a stream)
+    rready = [draw(st.sampled_from([None, None, [1, 1], [2, 7], [0, 25, 100, 0]])) for _ in cfg["ports"]]
+    return dict(ports=ports, wait_reads=waits, rready=rready)
